@@ -6,9 +6,9 @@ import McpModel.Resume.KeepMon
 * `get_400_reasons`: state level — `acquireStream`/`serveGET` answer 400 only for a malformed `Last-Event-ID`, for a
   `Last-Event-ID` without an event store, or when `EventStore.After` fails (session closed, stream unknown to the
   store, entries after the resume point evicted).
-* `resume_of_known_stream_not_refused`: with a store, on an open session, for a stream the store holds a log of and
-  from which nothing was evicted, a resume from ANY index is not answered 400 (it is served, or refused 409 while a
-  live exchange holds the stream) — however many resumes came before, from whatever ids.
+* `resume_of_known_stream_not_refused`: with a store, on an open session, for a stream the store holds a log of, a
+  resume from any index `i` whose successor was not evicted (`purged ≤ i + 1`) is not answered 400 (it is served, or
+  refused 409 while a live exchange holds the stream) — however many resumes came before, from whatever ids.
 * `keepMonitor_accepts_model`: on the observation trace of **every** label list of the model (configuration with a
   store) `Mon.keepStep` does not raise `refusedKept`; in the model every eviction is an EVICT label, reported as forced.
 * `Mon.refusedK_iff`, `Mon.keepStep_clause`, `Mon.keepStep_known`: the clause is raised exactly when the record has a GET
@@ -45,7 +45,7 @@ nothing of which was evicted, is not answered 400 — from whatever index, howev
 served before.  (It is answered with the rest of the log, `exchange_output_is_log_segment`, or 409 while a live exchange
 holds the stream, `resume_refused_only_while_claimed`.) -/
 theorem resume_of_known_stream_not_refused (c : Conn α) (t i : Nat) (ver : Ver) (budget : Option Nat)
-    (hst : c.cfg.hasStore = true) (hopen : c.isDone = false) (hk : (c.store t).isSome = true) (hp : c.purged t = 0)
+    (hst : c.cfg.hasStore = true) (hopen : c.isDone = false) (hk : (c.store t).isSome = true) (hp : c.purged t ≤ i + 1)
     (e : Exch α) (he : (get c (.ok t i) ver budget).exs[c.exs.length]? = some e) : e.kind ≠ .status 400 := by
   intro h400
   rcases get_400_reasons c (.ok t i) ver budget e he h400 with h | h | h
@@ -54,7 +54,10 @@ theorem resume_of_known_stream_not_refused (c : Conn α) (t i : Nat) (ver : Ver)
   · simp only [replayItems, Hdr.sid, Hdr.from, hst, hopen] at h
     cases hs : c.store t with
     | none => rw [hs] at hk; cases hk
-    | some log => rw [hs] at h; simp [hp] at h
+    | some log =>
+      rw [hs] at h
+      have hnot : ¬ (i + 1 < c.purged t) := by omega
+      simp [hnot] at h
 
 /-! ### the observation of a model step, as the retention clause sees it -/
 
@@ -66,10 +69,21 @@ def Label.isEvict : Label α → Bool
   | .evict _ _ => true
   | _ => false
 
+/-- the forced evictions of a model step: every EVICT label is one (the model's store evicts only under pressure) -/
+def forcedOf (sn : σ) (l : Label α) (c' : Conn α) : List (σ × Nat × Nat) :=
+  match l with
+  | .evict sid _ => [(sn, sid, c'.purged sid)]
+  | _ => []
+
+theorem forcedOf_nil (sn : σ) (l : Label α) (c' : Conn α) (hl : ∀ sid n, l ≠ .evict sid n) : forcedOf sn l c' = [] := by
+  cases l with
+  | evict sid n => exact absurd rfl (hl _ _)
+  | _ => rfl
+
 def kobsOf (sn : σ) (l : Label α) (c c' : Conn α) : KObs σ :=
   { sess := sn, get := getOfLabel l, codes := codesOf c c',
     appends := (appendsOf sn c c').map (fun a => (a.sess, a.stream)),
-    forced := l.isEvict, closed := [(sn, c'.isDone)] }
+    forced := forcedOf sn l c', closed := [(sn, c'.isDone)] }
 
 /-- one record per label -/
 def ktraceOf1 (sn : σ) : Conn α → List (Label α) → List (KObs σ)
@@ -78,12 +92,12 @@ def ktraceOf1 (sn : σ) : Conn α → List (Label α) → List (KObs σ)
 
 variable [DecidableEq σ]
 
-/-- the monitor's facts are the model's: a stream it knows has a log in the store, while the store was never over its
-limit nothing is evicted, and `closed` is `isDone` -/
+/-- the monitor's facts are the model's: a stream it knows has a log in the store, the store has evicted no more than it
+was forced to, and `closed` is `isDone` -/
 structure KeepRel (sn : σ) (m : KeepS σ) (c : Conn α) : Prop where
   store : c.cfg.hasStore = true
   known : ∀ t, m.known sn t = true → (c.store t).isSome = true
-  pressed : m.pressed = false → ∀ t, c.purged t = 0
+  first : ∀ t, c.purged t ≤ m.first sn t
   closed : m.closed sn = c.isDone
 
 theorem store_isSome_of_append {sn : σ} {c c' : Conn α} {t : Nat}
@@ -117,8 +131,8 @@ theorem keep_step_ok (sn : σ) {m : KeepS σ} {c : Conn α} (hw : Inv c) (hr : K
       | get hdr ver budget =>
         cases hdr with
         | ok t i =>
-          simp only [getOfLabel, Label.isEvict, Bool.or_false, Bool.and_eq_true, List.any_eq_true, Bool.not_eq_true',
-            beq_iff_eq] at href
+          simp only [getOfLabel, forcedOf, firstAfter, List.foldl_nil, Bool.and_eq_true, List.any_eq_true, Bool.not_eq_true',
+            beq_iff_eq, decide_eq_true_eq] at href
           obtain ⟨⟨⟨⟨x, hx, hcode⟩, hkn⟩, hcl⟩, hpr⟩ := href
           obtain ⟨hlo, hhi, e, he, hkind⟩ := mem_codesOf hx
           have hlen : (step c (.get (.ok t i) ver budget)).exs.length = c.exs.length + 1 := get_length c _ ver budget
@@ -126,7 +140,8 @@ theorem keep_step_ok (sn : σ) {m : KeepS σ} {c : Conn α} (hw : Inv c) (hr : K
           rw [hk] at he
           rw [hcode] at hkind
           have hopen : c.isDone = false := by rw [← hr.closed]; exact hcl
-          exact resume_of_known_stream_not_refused c t i ver budget hr.store hopen (hr.known t hkn) (hr.pressed hpr t) e he hkind
+          exact resume_of_known_stream_not_refused c t i ver budget hr.store hopen (hr.known t hkn)
+            (Nat.le_trans (hr.first t) (of_decide_eq_true hpr)) e he hkind
         | none => simp [getOfLabel] at href
         | bad => simp [getOfLabel] at href
       | _ => simp [getOfLabel] at href
@@ -143,18 +158,25 @@ theorem keep_step_ok (sn : σ) {m : KeepS σ} {c : Conn α} (hw : Inv c) (hr : K
           obtain ⟨more, hm⟩ := hg.store t log hs
           rw [hm]; rfl
       · exact store_isSome_of_append (by simpa using ht)
-    · intro hp t
-      simp only [keepStep, kobsOf, Bool.or_eq_false_iff] at hp
-      have hne : ∀ sid n, l ≠ .evict sid n := by
-        intro sid n h; rw [h] at hp; simp [Label.isEvict] at hp
-      rw [step_purged_other c l hne]
-      exact hr.pressed hp.1 t
+    · intro t
+      by_cases hev : ∃ sid n, l = .evict sid n
+      · obtain ⟨sid, n, rfl⟩ := hev
+        simp only [keepStep, kobsOf, forcedOf, firstAfter, List.foldl_cons, List.foldl_nil, true_and]
+        by_cases ht : t = sid
+        · subst ht; simp only [if_true]; exact Nat.le_max_right _ _
+        · simp only [ht, if_false]
+          have : (step c (.evict sid n)).purged t = c.purged t := by simp [step, stepR, evict, ht]
+          rw [this]; exact hr.first t
+      · have hne : ∀ sid n, l ≠ .evict sid n := fun sid n h => hev ⟨sid, n, h⟩
+        simp only [keepStep, kobsOf, forcedOf_nil sn l _ hne, firstAfter, List.foldl_nil]
+        rw [step_purged_other c l hne]
+        exact hr.first t
     · simp [keepStep, kobsOf, closedAfter]
 
 theorem keepRel_init (cfg : Cfg) (hst : cfg.hasStore = true) (sn : σ) : KeepRel sn (keepInit : KeepS σ) (init cfg : Conn α) := by
   refine ⟨hst, ?_, ?_, ?_⟩
   · intro t h; simp [keepInit] at h
-  · intro _ t; simp [init]
+  · intro t; simp [init]
   · simp [keepInit, init]
 
 theorem keep_accepts_from (sn : σ) : ∀ (ls : List (Label α)) (c : Conn α) (m : KeepS σ), Inv c → KeepRel sn m c →
@@ -172,8 +194,8 @@ theorem keep_accepts_from (sn : σ) : ∀ (ls : List (Label α)) (c : Conn α) (
 /-- **C08 bridging, retention clause.**  For every configuration with an event store and EVERY label list (any versions,
 any `Last-Event-ID`s — the same one, older ones, newer ones, in any order and number —, write budgets, evictions, the
 split write labels) the retention clause — "a resume naming a stream the store has appended to, on an open session, was
-answered 400 although the store was never over its limit" — is not raised on the model's observation trace (one record
-per label; an EVICT label is an eviction forced by the size limit). -/
+answered 400 although the store was never forced to evict the entry after the resume point" — is not raised on the
+model's observation trace (one record per label; an EVICT label is an eviction forced by the size limit). -/
 theorem keepMonitor_accepts_model (cfg : Cfg) (hst : cfg.hasStore = true) (sn : σ) (ls : List (Label α)) :
     (keepRun (keepInit : KeepS σ) (ktraceOf1 sn (init cfg : Conn α) ls)).2 = none :=
   keep_accepts_from sn ls (init cfg) _ (inv_init cfg) (keepRel_init cfg hst sn)
@@ -182,25 +204,38 @@ theorem keepMonitor_accepts_model (cfg : Cfg) (hst : cfg.hasStore = true) (sn : 
 
 namespace Mon
 
-/-- `refusedKept` ⇔ the record contains a GET with a well-formed `Last-Event-ID` naming stream `t`, an exchange answered
-400, the store accepted an append for `t` of that session before the record, the session's last snapshot did not show it
-closed, and neither before nor in this record was the store over its size limit -/
+/-- `refusedKept` ⇔ the record contains a GET with a well-formed `Last-Event-ID` naming stream `t` and index `i`, an exchange
+answered 400, the store accepted an append for `t` of that session before the record, the session's last snapshot did not
+show it closed, and up to and including this record the store was not forced to evict beyond index `i + 1` of `t` -/
 theorem refusedK_iff (m : KeepS σ) (o : KObs σ) :
     refusedK m o = true ↔
       ∃ t i, o.get = some (t, i) ∧ (∃ x ∈ o.codes, x.2 = 400) ∧ m.known o.sess t = true ∧ m.closed o.sess = false ∧
-        m.pressed = false ∧ o.forced = false := by
+        firstAfter m.first o.forced o.sess t ≤ i + 1 := by
   unfold refusedK
   cases hg : o.get with
   | none => simp
   | some ti =>
     obtain ⟨t, i⟩ := ti
-    simp only [Bool.and_eq_true, List.any_eq_true, beq_iff_eq, Bool.not_eq_true', Bool.or_eq_false_iff, Option.some.injEq,
+    simp only [Bool.and_eq_true, List.any_eq_true, beq_iff_eq, Bool.not_eq_true', decide_eq_true_eq, Option.some.injEq,
       Prod.mk.injEq]
     constructor
-    · rintro ⟨⟨⟨hx, hk⟩, hc⟩, hp, hf⟩
-      exact ⟨t, i, ⟨rfl, rfl⟩, hx, hk, hc, hp, hf⟩
-    · rintro ⟨t', i', ⟨rfl, rfl⟩, hx, hk, hc, hp, hf⟩
-      exact ⟨⟨⟨hx, hk⟩, hc⟩, hp, hf⟩
+    · rintro ⟨⟨⟨hx, hk⟩, hc⟩, hp⟩
+      exact ⟨t, i, ⟨rfl, rfl⟩, hx, hk, hc, hp⟩
+    · rintro ⟨t', i', ⟨rfl, rfl⟩, hx, hk, hc, hp⟩
+      exact ⟨⟨⟨hx, hk⟩, hc⟩, hp⟩
+
+/-- ground truth of `first`: it only grows, and a forced eviction of `(s, t)` up to `n` raises it to at least `n` -/
+theorem firstAfter_ge (first : σ → Nat → Nat) (forced : List (σ × Nat × Nat)) (s : σ) (t : Nat) :
+    first s t ≤ firstAfter first forced s t := by
+  unfold firstAfter
+  induction forced generalizing first with
+  | nil => exact Nat.le_refl _
+  | cons x rest ih =>
+    simp only [List.foldl_cons]
+    refine Nat.le_trans ?_ (ih _)
+    split
+    · exact Nat.le_max_left _ _
+    · exact Nat.le_refl _
 
 theorem keepStep_clause (m : KeepS σ) (o : KObs σ) :
     (keepStep m o).2 = some .refusedKept ↔ refusedK m o = true := by
@@ -216,14 +251,19 @@ end Mon
 
 /-- non-vacuity: one append, then a resume from its id answered 400 without any pressure is flagged -/
 example : (keepRun (keepInit : KeepS Nat)
-    [{ sess := 1, get := none, codes := [], appends := [(1, 2)], forced := false, closed := [(1, false)] },
-     { sess := 1, get := some (2, 0), codes := [(5, 400)], appends := [], forced := false, closed := [(1, false)] }]).2
+    [{ sess := 1, get := none, codes := [], appends := [(1, 2)], forced := [], closed := [(1, false)] },
+     { sess := 1, get := some (2, 0), codes := [(5, 400)], appends := [], forced := [], closed := [(1, false)] }]).2
     = some .refusedKept := by decide
 
-/-- … and not flagged once the store has been over its limit -/
+/-- … not flagged once the store was forced to evict the entry after the resume point, still flagged when the forced
+eviction of that stream stopped before it or concerned another stream -/
 example : (keepRun (keepInit : KeepS Nat)
-    [{ sess := 1, get := none, codes := [], appends := [(1, 2)], forced := true, closed := [(1, false)] },
-     { sess := 1, get := some (2, 0), codes := [(5, 400)], appends := [], forced := false, closed := [(1, false)] }]).2
+    [{ sess := 1, get := none, codes := [], appends := [(1, 2)], forced := [(1, 2, 2)], closed := [(1, false)] },
+     { sess := 1, get := some (2, 0), codes := [(5, 400)], appends := [], forced := [], closed := [(1, false)] }]).2
     = none := by decide
+example : (keepRun (keepInit : KeepS Nat)
+    [{ sess := 1, get := none, codes := [], appends := [(1, 2)], forced := [(1, 2, 1), (1, 3, 9)], closed := [(1, false)] },
+     { sess := 1, get := some (2, 0), codes := [(5, 400)], appends := [], forced := [], closed := [(1, false)] }]).2
+    = some .refusedKept := by decide
 
 end Resume
